@@ -14,6 +14,8 @@ closed old handles in place until the new ones are installed.)
 Regression witness for the code BEFORE that fix (`nilOnSwap := true`), by `decide`:
 `C12_nil_handles_counterexample_oldshape` (a failed remove / rename / reopen left both handles
 nil and the next append panicked); the same faults now: `C12_nil_handles_fixed`.
+PROVED towards "resumes": `C12_compaction_succeeds_after_fault_partial` — once the fault lies in
+the past every compaction (hence tryAppend's immediate recovery compaction) succeeds.
 NOT PROVED: `C12_resumes` (after the fault, a restart reflects all later changes): judged on
 the real code by the monitor (`fault-not-resumed`) at every fault index of every generated
 life, and compared with the model's recovery.
@@ -26,6 +28,19 @@ open SerfModel SerfModel.Snapshot SerfModel.SnapshotFault SerfProofs.SnapshotFau
 theorem C12_no_panic (rj : Bool) (mc : Nat) (fault : Option Nat) (evs : List FEv) (clk : Nat) :
     (fLife rj mc fault evs clk).panicked = false :=
   (fShutdown_P _ clk (fRun_P evs _ (fInit_P rj mc fault))).2.2
+
+/-- **Part of "recording resumes"**: once the single fault lies in the past (`Consumed`), on the
+current code shape every compaction succeeds — in particular the recovery compaction that
+`tryAppend` starts right after the failed append — and installs fresh handles; it keeps
+succeeding afterwards (`Q` is preserved).  Hence no single-fault history makes the immediate
+recovery attempt fail.  (That the compacted file replays to the in-memory state is
+`C10_compact_restores_partial`.) -/
+theorem C12_compaction_succeeds_after_fault_partial (st : FSnap) (h : Q st) :
+    Q (fCompact st).1 ∧ (fCompact st).2 = .ok :=
+  fCompact_ok_of_consumed st h
+
+/-- non-vacuity: the state right after a failed write (fault 1 of the witness history) satisfies `Q` -/
+example : Q (fInit false 0 none) := ⟨⟨rfl, rfl, rfl⟩, rfl, Or.inl rfl⟩
 
 def cexEvs : List FEv := [.ev (.join [(['a'], ['1', ':', '2'])] 2), .ev .forceCompact, .ev (.clockTick 9)]
 
@@ -40,5 +55,29 @@ theorem C12_nil_handles_counterexample_oldshape :
 theorem C12_nil_handles_fixed :
     ∀ k ∈ [8, 9, 10], (fLife false 0 (some k) cexEvs 9).panicked = false ∧
       (recover false (FS.applyAll {} (fLife false 0 (some k) cexEvs 9).done)).alive = [(['a'], ['1', ':', '2'])] := by decide
+
+/-- the recorded history of the former finding `fault-rename-never-recovers`:
+`fault 8; new sync 0 0; user 5; query 6; join a; join b; gone failed a; user 9; shutdown 4` -/
+def renameEvs : List FEv :=
+  [.ev (.user 5), .ev (.query 6), .ev (.join [(['a'], ['1', ':', '2'])] 2), .ev (.join [(['b'], ['3', ':', '4'])] 3),
+   .ev (.gone [['a']] 4), .ev (.user 9)]
+
+/-- **Before d3a31c2** (`removeMissingFails := true`): operation 8 is the rename of the first
+threshold compaction; after it failed every later compaction stopped at remove ("no such
+file"), and the restart recovers only what the last attempt wrote to path.compact (event clock
+5, query clock 6, no member) although the node knew `b`, clock 3, event clock 9. -/
+theorem C12_rename_never_recovers_counterexample_oldshape :
+    (fLife false 0 (some 8) renameEvs 4 false true).failed = some (.rename .tmp .main) ∧
+    (fLife false 0 (some 8) renameEvs 4 false true).s.alive = [(['b'], ['3', ':', '4'])] ∧
+    (fLife false 0 (some 8) renameEvs 4 false true).s.lastEventClock = 9 ∧
+    (recover false (FS.applyAll {} (fLife false 0 (some 8) renameEvs 4 false true).done)).alive = [] ∧
+    (recover false (FS.applyAll {} (fLife false 0 (some 8) renameEvs 4 false true).done)).eventClock = 5 := by decide
+
+/-- **Now**: the next compaction ignores the missing file, installs a new snapshot, and the
+restart reflects everything the node knew. -/
+theorem C12_rename_never_recovers_fixed :
+    (fLife false 0 (some 8) renameEvs 4).failed = some (.rename .tmp .main) ∧
+    (recover false (FS.applyAll {} (fLife false 0 (some 8) renameEvs 4).done)) =
+      { alive := [(['b'], ['3', ':', '4'])], clock := 3, eventClock := 9, queryClock := 6 } := by decide
 
 end SerfProofs.C12
